@@ -80,6 +80,15 @@ claim("C17",
       "Instance classes where RFC and Go's parsers legitimately disagree are not generated (listed in evidence assumptions).",
       "TLC exhaustive model checking + schedule replay through hooks + TLC trace validation", "DESIGN.md 6 (C17)")
 
+claim("C16",
+      "Mux.tla (Use/Handle registration with pending middlewares and the wildcard table, net/url Path/RawPath rule, chi routing context, Vars, ResolvePattern "
+      "probed from middlewares before and after next, 404 handling) is model-checked exhaustively in three families (values, dispatch, middleware) with four "
+      "deviation guards; every enumerated case is served by the real goahttp.Muxer with requests that went through net/http's own parsing; random cases (up to "
+      "6 patterns) are validated by TLC as traces.",
+      "Trusted: net/url and net/http request parsing, the projection in harness/drivers/mux. Left open where the statement is silent: which of several overlapping "
+      "patterns wins, empty {name} segments, 404 vs 405.",
+      "TLC exhaustive model checking + vectors replayed on real code + TLC trace validation", "DESIGN.md 6 (C16)")
+
 for p in ALL:
     if p not in CLAIMED:
         NOT_APPLICABLE[p] = "check not built yet in this revision (planned with the same technique, see DESIGN.md section 6)"
